@@ -34,7 +34,7 @@ def manifest(with_c15):
      chk("C01","keysim","Seeded exploration of XMSS key histories (Sign / forward SetIndex / refused calls / crash-rebuild) with every emitted signature checked by the library's own Verify (real leaves) or validateAuthPath against the root (stub leaves behind the leaf seam). Complete over the index space for the heights listed in evidence.exhaustive_subspaces; sampled elsewhere. Exploration is the right level: the property quantifies over histories, and the traversal control flow depends only on (height, index history).",
          "Trusted: the library's own Verify/validateAuthPath as oracle (a consistent change of hash constructions is C06's business, not C01's); the verif-tagged hooks; stub-leaf episodes rely on control flow being independent of hash values, as the property states. Heights above 18 (stub) / 10 (real) are not executed.",
          "deterministic key-lifecycle simulation, seeded op histories, whole-life enumeration, delta-debugged replay","DESIGN.md 2.2, 3 (C01)"),
-     chk("C02","keysim","Refinement of the real XMSS object against the counter automaton of the property text, checked after every operation of seeded histories rich in refused calls (rewind, too high, exhausted) that the harness recovers from and keeps going; refused calls must leave GetIndex, all identity getters and - via a mirror twin that never saw the refused call - all later signatures unchanged.",
+     chk("C02","keysim","Refinement of the real XMSS object against the counter automaton of the property text, checked after every operation of seeded histories rich in refused calls (rewind, too high, exhausted) that the harness recovers from and keeps going; refused calls must leave GetIndex, all identity getters and - via a mirror twin that never saw the refused call - all later signatures unchanged; a call that blocks forever is detected deterministically (Go runtime deadlock report in the single-goroutine worker).",
          "Trusted: recover() sees every refusal (panic or error return both count as refused; a silent no-op that leaves the index unchanged too). j ranges over the uint32 domain by boundary values plus random. Heights 4..16.",
          "deterministic simulation, model refinement per op, fault = refused operation, twin comparison","DESIGN.md 2.2, 3 (C02)"),
      chk("C08","keysim","Crash/rebuild simulation: the live object is dropped at arbitrary op boundaries and rebuilt from each exported secret form and restore plan (one jump, several jumps, dummy signatures, mixed), next to a never-crashed twin that reaches the same indices by a different path (mirror / unit steps / signing); all later signatures and authentication paths must be byte-identical through the rest of the key's life. Every crash index x form x plan kind is covered for the small heights listed in evidence.",
@@ -45,8 +45,8 @@ def manifest(with_c15):
          "deterministic simulation, crash-restart from durable secret, entropy fault injection behind rand.Reader","DESIGN.md 2.2, 3 (C09)"),
     ]
     if with_c15:
-        checks.append(chk("C15","consim","Deterministic caller-goroutine simulation: the library source is instrumented (in a scratch copy, regenerated on every run) with a yield point before every statement; a seeded plan decides at which yield which goroutine runs, so one seed is one exactly repeatable interleaving. Oracles: every call's result equals its sequential baseline, caller-owned shared inputs stay bit-identical, and (in the -race build) no race report - the hand-off between tasks is invisible to the race detector, so it still sees tasks as concurrent.",
-         "Trusted: pre-emption granularity is one source statement of the library packages; memory-model effects beyond SC interleavings are left to the race detector; library-internal goroutines/channels are unsupported (exit 2).",
+        checks.append(chk("C15","consim","Deterministic caller-goroutine simulation: the library source is instrumented (in a scratch copy, regenerated on every run) with a yield point before every statement; a seeded plan decides at which yield which goroutine runs, so one seed is one exactly repeatable interleaving. Oracles: every call's result equals its sequential baseline and (cold-start episodes, sampled warm episodes) the same call run truly alone in a fresh process; caller-owned shared inputs and returned strings/slices stay bit-identical; and (in the -race build) no race report - the hand-off between tasks is invisible to the race detector, so it still sees tasks as concurrent. Goroutines, WaitGroups, channels and select inside the library are rewritten into scheduler tasks and yield-aware primitives.",
+         "Trusted: pre-emption granularity is one source statement of the library packages; memory-model effects beyond SC interleavings are left to the race detector; sync.Cond inside the library is unsupported (exit 2).",
          "deterministic scheduling of instrumented source, seeded PCT-style schedule search, sequential-baseline oracle, race detector","DESIGN.md 2.3, 3 (C15)"))
     na = [{"property_id": k, "reason": v} for k, v in NA.items()]
     if not with_c15:
